@@ -78,7 +78,11 @@ DirValue(d, vals) == IF "lit" \in DOMAIN d.v THEN d.v.lit
                      ELSE IF d.v.var \in DOMAIN vals /\ vals[d.v.var] # Null THEN vals[d.v.var].v ELSE FALSE
 \* @skip(if: true) or @include(if: false) excludes the selection; skip has precedence either way (both must allow)
 Included(dirs, vals) ==
-  \A k \in 1..Len(dirs) : IF dirs[k].d = "skip" THEN ~DirValue(dirs[k], vals) ELSE DirValue(dirs[k], vals)
+  \A k \in 1..Len(dirs) : CASE dirs[k].d = "skip" -> ~DirValue(dirs[k], vals)
+                                [] dirs[k].d = "include" -> DirValue(dirs[k], vals)
+                                [] OTHER -> TRUE
+\* an active @defer (its `if` is true) on a fragment
+DeferActive(dirs, vals) == \E k \in 1..Len(dirs) : dirs[k].d = "defer" /\ DirValue(dirs[k], vals)
 
 \* returns [fields: Seq(field selections in document order), visited]
 RECURSIVE Flatten(_, _, _, _, _)
@@ -99,6 +103,24 @@ Flatten(R, sels, objType, visited, acc) ==
                  ELSE Flatten(R, Tail(sels), objType, v2, acc)
 
 Collect(R, sels, objType) == Flatten(R, sels, objType, {}, <<>>).fields
+
+\* Does collecting this selection set for objType meet an active @defer on a fragment that applies? An executor without
+\* incremental delivery (subscriptions; execute() proper) answers such a position with a field error.
+\* -> [met, visited]
+RECURSIVE DeferMet(_, _, _, _)
+DeferMet(R, sels, objType, visited) ==
+  IF sels = <<>> THEN [met |-> FALSE, visited |-> visited]
+  ELSE LET h == Head(sels)
+           r == IF ~Included(h.dirs, R.vals) \/ h.k = "F" THEN [met |-> FALSE, visited |-> visited]
+                ELSE IF h.k = "I" THEN
+                     (IF ~Matches(R.schema, h.on, objType) THEN [met |-> FALSE, visited |-> visited]
+                      ELSE IF DeferActive(h.dirs, R.vals) THEN [met |-> TRUE, visited |-> visited]
+                      ELSE DeferMet(R, h.sel, objType, visited))
+                ELSE IF h.name \in visited \/ h.name \notin DOMAIN R.doc.frags \/ ~Matches(R.schema, R.doc.frags[h.name].on, objType)
+                     THEN [met |-> FALSE, visited |-> visited]
+                ELSE IF DeferActive(h.dirs, R.vals) THEN [met |-> TRUE, visited |-> visited]
+                ELSE DeferMet(R, R.doc.frags[h.name].sel, objType, visited \cup {h.name})
+       IN IF r.met THEN r ELSE DeferMet(R, Tail(sels), objType, r.visited)
 
 Key(f) == IF f.alias = "" THEN f.name ELSE f.alias
 RECURSIVE Keys(_, _)
@@ -236,6 +258,7 @@ Complete(R, ty, fs, oc, path, errs, calls) ==
                           /\ ~("reject" \in DOMAIN oc /\ oc.reject)          \* the object type's is_type_of accepts the value
                           /\ (IF kind = "OBJECT" THEN rt = Named(ty) ELSE Matches(S, Named(ty), rt))
             IN IF ~okType THEN Raise(path, errs, calls)
+               ELSE IF R.noIncr /\ DeferMet(R, MergedSel(fs), rt, {}).met THEN Raise(path, errs, calls)
                ELSE LET fl == Collect(R, MergedSel(fs), rt)
                     IN ExecSel(R, rt, oc, fl, Keys(fl, {}), path, [kv |-> <<>>, errs |-> errs, calls |-> calls])
 
@@ -243,7 +266,7 @@ Complete(R, ty, fs, oc, path, errs, calls) ==
 Execute(R0) ==
   LET cv == CoerceVars(R0.doc.vardefs, R0.vars, <<>>) IN
   IF ~cv.ok THEN [data |-> [t |-> "absent"], errors |-> <<>>, calls |-> <<>>, requestError |-> TRUE]
-  ELSE LET R == [schema |-> R0.schema, doc |-> R0.doc, vals |-> cv.vals,
+  ELSE LET R == [schema |-> R0.schema, doc |-> R0.doc, vals |-> cv.vals, noIncr |-> "noIncr" \in DOMAIN R0 /\ R0.noIncr,
                     wd |-> {R0.doc.vardefs[k].name : k \in {j \in 1..Len(R0.doc.vardefs) : R0.doc.vardefs[j].hasDefault}}]
            fl == Collect(R, R0.doc.sel, R0.schema.query)
            r  == ExecSel(R, R0.schema.query, R0.root, fl, Keys(fl, {}), <<>>, [kv |-> <<>>, errs |-> <<>>, calls |-> <<>>])
